@@ -189,3 +189,436 @@ func TestC04(t *testing.T) {
 		return keys
 	}})
 }
+
+// ---------------------------------------------------------------- C05 (end-to-end half)
+
+func TestC05History(t *testing.T) {
+	p := &world.Profile{Name: "scaleup", MinGroups: 1, MaxGroups: 1, Fleet: 1, Auto: 1, MaxInit: 10, SmallGraces: true, Steps: 20,
+		Weights: with(baseWeights(), "targetUtil", 14, "taintExt", 4, "cordon", 1, "restart", 1, "fleetPlan", 1)}
+	col := newCollector(t, "C05", "end-to-end: scans in the scale-up band with equal-size nodes; nodes brought into service = untaints + (requested target - real desired); non-trivial = strict scale-up band with need >= 1; distinct by (need, reused, requested, clamped, bound resource)")
+	historyCheck(t, &historyOpts{prop: "C05", profile: p, col: col, classify: func(w *world.World, rec *world.ScanRecord) []string {
+		var keys []string
+		for _, gr := range rec.Groups {
+			ex := w.Expectation(rec, gr)
+			if ex.Kind != "band" || ex.Bands != [4]bool{false, false, false, true} || ex.Need < 0 || rec.Faulty() {
+				continue
+			}
+			keys = append(keys, fmt.Sprintf("e2e|need=%d|untaint=%d|req=%d|tainted=%d|fleet=%v", ex.Need, len(gr.UntaintedNow()), len(gr.Increase), len(gr.GV.Tainted), w.Cfg.IsFleet(gr.G)))
+		}
+		return keys
+	}})
+}
+
+// ---------------------------------------------------------------- C06
+
+func TestC06(t *testing.T) {
+	p := &world.Profile{Name: "bands", MinGroups: 1, MaxGroups: 2, Fleet: 1, Auto: 1, Default: 1, Starve: 1, MaxAge: 1, MaxInit: 10, SmallGraces: true, Steps: 25,
+		Weights: with(baseWeights(), "targetUtil", 16, "scan", 12, "taintExt", 2, "cordon", 1, "restart", 1, "schedule", 2)}
+	col := newCollector(t, "C06", "history check; every unlocked, in-bounds, fault-free scan is judged against the exact-rational band; non-trivial = band with a non-empty expected action or an edge class; distinct by (band set, edge, clamp binds, tainted present, trigger)")
+	historyCheck(t, &historyOpts{prop: "C06", profile: p, col: col, classify: func(w *world.World, rec *world.ScanRecord) []string {
+		var keys []string
+		for _, gr := range rec.Groups {
+			ex := w.Expectation(rec, gr)
+			if ex.Kind != "band" || rec.Faulty() || len(gr.Failed) > 0 {
+				continue
+			}
+			o := &w.Cfg.Groups[gr.G].Opts
+			U, m := len(gr.GV.Untainted), gr.EffMin
+			clamp := o.FastNodeRemovalRate > U-m
+			nonEmpty := ex.Bands[ref.BandUp] || (ex.Bands[ref.BandFast] && minI(o.FastNodeRemovalRate, U-m) > 0) || (ex.Bands[ref.BandSlow] && minI(o.SlowNodeRemovalRate, U-m) > 0)
+			if nonEmpty || ex.Edge != "" || ex.Starve || ex.MaxAge {
+				keys = append(keys, fmt.Sprintf("band|%v|%s|clamp=%v|tainted=%v|starve=%v|maxage=%v|U0=%v", ex.Bands, ex.Edge, clamp, len(gr.GV.Tainted) > 0, ex.Starve, ex.MaxAge, U == 0))
+			}
+		}
+		return keys
+	}})
+}
+
+func minI(a, b int) int {
+	if a < b {
+		return a
+	}
+	return b
+}
+
+// ---------------------------------------------------------------- C07
+
+func TestC07(t *testing.T) {
+	p := &world.Profile{Name: "reuse", MinGroups: 1, MaxGroups: 2, Fleet: 1, Auto: 1, MaxInit: 10, SmallGraces: true, Steps: 25, Stale: true,
+		Weights: with(baseWeights(), "targetUtil", 12, "taintExt", 8, "fault", 2, "asgEdit", 1, "cordon", 2, "clearNode", 2)}
+	col := newCollector(t, "C07", "history check; scans that untaint or request capacity; non-trivial = 0 < tainted pool < need (partial reuse), creation-time ties in the pool, a failed untaint, or force removal earlier in the same scan; distinct by those flags and pool/need sizes")
+	historyCheck(t, &historyOpts{prop: "C07", profile: p, col: col, classify: func(w *world.World, rec *world.ScanRecord) []string {
+		var keys []string
+		for _, gr := range rec.Groups {
+			if !gr.Processed || gr.Dry || (len(gr.UntaintedNow()) == 0 && len(gr.Increase) == 0) {
+				continue
+			}
+			ex := w.Expectation(rec, gr)
+			need := int64(ex.N)
+			if ex.Kind == "band" {
+				need = ex.Need
+			}
+			pool := int64(len(gr.GV.Tainted))
+			ties := false
+			seen := map[int64]bool{}
+			for _, n := range gr.GV.Tainted {
+				ts := n.CreationTimestamp.Unix()
+				if seen[ts] {
+					ties = true
+				}
+				seen[ts] = true
+			}
+			partial := pool > 0 && pool < need
+			failed := len(gr.Failed) > 0
+			forceFirst := len(gr.TermOK) > 0
+			if partial || ties || failed || forceFirst {
+				keys = append(keys, fmt.Sprintf("reuse|partial=%v|ties=%v|failed=%v|force=%v|pool=%d|need=%d|kind=%s", partial, ties, failed, forceFirst, pool, need, ex.Kind))
+			}
+		}
+		return keys
+	}})
+}
+
+// ---------------------------------------------------------------- C08
+
+func TestC08(t *testing.T) {
+	p := &world.Profile{Name: "oldest", MinGroups: 1, MaxGroups: 1, Auto: 1, MaxInit: 14, SmallGraces: true, Steps: 12, Stale: true, MaxBelowASG: 1,
+		Weights: map[string]int{"scan": 10, "targetUtil": 8, "fault": 3, "launch": 2, "taintExt": 1, "cordon": 1, "advance": 1, "removeTaint": 1}}
+	col := newCollector(t, "C08", "history check; scale-down scans; non-trivial = 0 < tainted < untainted with >= 2 distinct creation times and a view order that is not already oldest-first; also ties and failed writes; distinct by (k, U, distinct times, sorted, ties, failed, stale)")
+	historyCheck(t, &historyOpts{prop: "C08", profile: p, col: col, classify: func(w *world.World, rec *world.ScanRecord) []string {
+		var keys []string
+		for _, gr := range rec.Groups {
+			k, U := len(gr.TaintedNow()), len(gr.GV.Untainted)
+			if !gr.Processed || gr.Dry || k == 0 || k >= U {
+				continue
+			}
+			times := map[int64]bool{}
+			sorted := true
+			for i, n := range gr.GV.Untainted {
+				times[n.CreationTimestamp.Unix()] = true
+				if i > 0 && n.CreationTimestamp.Time.Before(gr.GV.Untainted[i-1].CreationTimestamp.Time) {
+					sorted = false
+				}
+			}
+			if len(times) >= 2 && (!sorted || len(times) < U || len(gr.Failed) > 0) {
+				keys = append(keys, fmt.Sprintf("oldest|k=%d|U=%d|times=%d|sorted=%v|failed=%d|noop=%d", k, U, len(times), sorted, len(gr.Failed), len(gr.TaintNoop)))
+			}
+		}
+		return keys
+	}})
+}
+
+// actsOn reports what escalator would be tempted to do with node n if it ignored one protection.
+func temptation(w *world.World, rec *world.ScanRecord, gr *world.GroupRec, n *v1.Node) string {
+	o := &w.Cfg.Groups[gr.G].Opts
+	if _, ok := ref.HasTaint(n, ref.ForceTaintKey); ok && len(gr.GV.PodsOn(n.Name)) == 0 {
+		return "force-empty"
+	}
+	if ts, ok := ref.TaintTime(n); ok {
+		age := gr.Start.Sub(ts)
+		if age > o.HardDeleteGracePeriodDuration() {
+			return "hard-expired"
+		}
+		if age > o.SoftDeleteGracePeriodDuration() && len(gr.GV.PodsOn(n.Name)) == 0 {
+			return "soft-expired-empty"
+		}
+		return "tainted"
+	}
+	if _, ok := ref.HasTaint(n, ref.TaintKey); ok {
+		return "tainted-unreadable"
+	}
+	return "untainted"
+}
+
+// ---------------------------------------------------------------- C09
+
+func TestC09(t *testing.T) {
+	p := &world.Profile{Name: "cordon", MinGroups: 1, MaxGroups: 2, Fleet: 0, Auto: 1, MaxInit: 8, SmallGraces: true, Steps: 30, Stale: true,
+		Weights: with(baseWeights(), "cordon", 8, "taintExt", 5, "advance", 8, "annotate", 1, "clearNode", 2)}
+	col := newCollector(t, "C09", "history check; non-trivial = an acting (unlocked, in-bounds) scan that sees a cordoned node which would otherwise have been acted on: grace-expired, force-tainted and empty, tainted under a scale-up, or oldest untainted-looking under a scale-down; distinct by (temptation, action of the scan)")
+	historyCheck(t, &historyOpts{prop: "C09", profile: p, col: col, classify: func(w *world.World, rec *world.ScanRecord) []string {
+		var keys []string
+		for _, gr := range rec.Groups {
+			if !gr.Processed || gr.Dry || len(gr.GV.Cordoned) == 0 {
+				continue
+			}
+			ex := w.Expectation(rec, gr)
+			if ex.Kind != "band" && ex.Kind != "recover" {
+				continue
+			}
+			act := fmt.Sprintf("t%du%dr%d", minI(len(gr.TaintedNow()), 1), minI(len(gr.UntaintedNow()), 1), minI(len(gr.TermOK), 1))
+			for _, n := range gr.GV.Cordoned {
+				tmp := temptation(w, rec, gr, n)
+				oldest := true
+				for _, u := range gr.GV.Untainted {
+					if u.CreationTimestamp.Time.Before(n.CreationTimestamp.Time) {
+						oldest = false
+					}
+				}
+				if tmp == "untainted" && !(oldest && len(gr.TaintedNow()) > 0) {
+					continue
+				}
+				if tmp == "tainted" && len(gr.UntaintedNow()) == 0 && len(gr.Increase) == 0 {
+					continue
+				}
+				keys = append(keys, fmt.Sprintf("cordon|%s|%s|%s", tmp, ex.Kind, act))
+			}
+		}
+		return keys
+	}})
+}
+
+// ---------------------------------------------------------------- C10
+
+func TestC10(t *testing.T) {
+	p := &world.Profile{Name: "annot", MinGroups: 1, MaxGroups: 2, Fleet: 0, Auto: 1, MaxInit: 8, SmallGraces: true, Steps: 30, Stale: true,
+		Weights: with(baseWeights(), "annotate", 8, "taintExt", 6, "advance", 9, "clearNode", 3, "cordon", 1)}
+	col := newCollector(t, "C10", "history check; non-trivial = a reaping scan that sees an annotated node satisfying the removal condition, with or without other removable nodes; distinct by (temptation, value class, others removed, empty)")
+	historyCheck(t, &historyOpts{prop: "C10", profile: p, col: col, classify: func(w *world.World, rec *world.ScanRecord) []string {
+		var keys []string
+		for _, gr := range rec.Groups {
+			if !gr.Processed || gr.Dry {
+				continue
+			}
+			ex := w.Expectation(rec, gr)
+			if ex.Kind != "band" || ex.Bands[ref.BandUp] {
+				continue
+			}
+			for _, n := range gr.GV.Tainted {
+				if _, has := n.Annotations[ref.NoDeleteKey]; !has {
+					continue
+				}
+				tmp := temptation(w, rec, gr, n)
+				if tmp != "hard-expired" && tmp != "soft-expired-empty" {
+					continue
+				}
+				keys = append(keys, fmt.Sprintf("annot|%s|empty=%v|others=%d|value=%q", tmp, n.Annotations[ref.NoDeleteKey] == "", minI(len(gr.TermOK), 2), n.Annotations[ref.NoDeleteKey]))
+			}
+		}
+		return keys
+	}})
+}
+
+// ---------------------------------------------------------------- C11
+
+// dryBranch names the decision branch a dry group took, from the documented decision procedure.
+func dryBranch(w *world.World, rec *world.ScanRecord, gr *world.GroupRec) string {
+	if !gr.Processed || gr.ListFault {
+		return ""
+	}
+	delta := gr.Gauge["scale_delta"]
+	n, U := len(gr.GV.Nodes), int(gr.Gauge["untainted"])
+	if gr.Gauge["untainted"] == world.GaugeUnset {
+		return ""
+	}
+	switch {
+	case n == 0 && len(gr.GV.Pods) == 0:
+		return ""
+	case n < gr.EffMin || n > gr.EffMax:
+		return ""
+	case U < gr.EffMin:
+		return "recover"
+	case delta > 0 && int(gr.Gauge["tainted"]) > 0:
+		return "up-untaint"
+	case delta > 0 && U == 0:
+		return "up-from-zero"
+	case delta > 0:
+		return "up-cloud"
+	case delta < 0:
+		return "down-taint"
+	}
+	if int(gr.Gauge["tainted"]) > 0 {
+		return "reap-check"
+	}
+	return ""
+}
+
+func TestC11(t *testing.T) {
+	p := &world.Profile{Name: "dry", MinGroups: 1, MaxGroups: 3, Dry: 2, Fleet: 1, Auto: 1, MaxInit: 8, SmallGraces: true, Steps: 30,
+		Weights: with(baseWeights(), "targetUtil", 12, "taintExt", 5, "advance", 8, "clearNode", 2, "cordon", 1)}
+	col := newCollector(t, "C11", "history check; group 0 is always dry (group option or global flag); non-trivial = a scan in which the dry group took a branch that writes when not dry (recover, scale-up with/without tracked nodes, from zero, scale-down taint, reap of really-expired tainted nodes, force removal); distinct by (branch, via-global, fleet, real expired taints present)")
+	historyCheck(t, &historyOpts{prop: "C11", profile: p, col: col, classify: func(w *world.World, rec *world.ScanRecord) []string {
+		var keys []string
+		for _, gr := range rec.Groups {
+			if !gr.Dry {
+				continue
+			}
+			br := dryBranch(w, rec, gr)
+			if br == "" {
+				continue
+			}
+			expired := 0
+			for _, n := range append(append([]*v1.Node{}, gr.GV.Tainted...), gr.GV.Force...) {
+				if tmp := temptation(w, rec, gr, n); tmp == "hard-expired" || tmp == "soft-expired-empty" || tmp == "force-empty" {
+					expired++
+				}
+			}
+			keys = append(keys, fmt.Sprintf("dry|%s|global=%v|fleet=%v|expired=%d", br, w.Cfg.GlobalDry, w.Cfg.IsFleet(gr.G), minI(expired, 2)))
+		}
+		return keys
+	}})
+}
+
+// ---------------------------------------------------------------- C12
+
+func TestC12(t *testing.T) {
+	p := &world.Profile{Name: "isolation", MinGroups: 2, MaxGroups: 3, Dry: 1, Fleet: 1, Auto: 1, Default: 1, MaxInit: 6, SmallGraces: true, Steps: 30,
+		Weights: with(baseWeights(), "targetUtil", 12, "taintExt", 4, "fault", 2, "advance", 6)}
+	col := newCollector(t, "C12", "history check with 2-3 groups; non-trivial = a scan in which at least two groups act, or one group fails non-fatally before another is processed; distinct by (acting groups, failing group position, default group present)")
+	historyCheck(t, &historyOpts{prop: "C12", profile: p, col: col, classify: func(w *world.World, rec *world.ScanRecord) []string {
+		acting, failedBefore := 0, false
+		sawFail := false
+		pat := ""
+		for _, gr := range rec.Groups {
+			a := gr.K8sWrites+gr.AWSWrites > 0
+			if a {
+				acting++
+				pat += "A"
+			} else {
+				pat += "-"
+			}
+			if sawFail && gr.Processed {
+				failedBefore = true
+			}
+			if gr.ListFault || len(gr.Failed) > 0 || gr.TermFail > 0 {
+				sawFail = true
+			}
+		}
+		if acting >= 2 || failedBefore {
+			hasDefault := false
+			for _, g := range w.Cfg.Groups {
+				if g.Opts.Name == "default" {
+					hasDefault = true
+				}
+			}
+			return []string{fmt.Sprintf("iso|%s|failBefore=%v|default=%v", pat, failedBefore, hasDefault)}
+		}
+		return nil
+	}})
+}
+
+// ---------------------------------------------------------------- C15 (history half)
+
+func TestC15History(t *testing.T) {
+	p := &world.Profile{Name: "taints", MinGroups: 1, MaxGroups: 2, Auto: 1, MaxInit: 8, SmallGraces: true, Steps: 30, Stale: true,
+		Weights: with(baseWeights(), "targetUtil", 14, "foreignTaint", 6, "taintExt", 2, "advance", 4, "annotate", 2)}
+	col := newCollector(t, "C15", "history half: every accepted node update is compared with the stored object it replaced; non-trivial = an update on a node with >= 2 foreign taints, or a re-taint of a node tainted and untainted earlier, or a scale-down over already tainted nodes (stale view); distinct by (add/remove, foreign taints, stale no-op)")
+	tainted := map[string]int{}
+	historyCheck(t, &historyOpts{prop: "C15", profile: p, col: col, classify: func(w *world.World, rec *world.ScanRecord) []string {
+		var keys []string
+		if rec.Index == 0 {
+			for k := range tainted {
+				delete(tainted, k)
+			}
+		}
+		for _, gr := range rec.Groups {
+			for _, e := range gr.Seg {
+				if e.Kind != sim.KUpdate || !e.OK() || e.Before == nil {
+					continue
+				}
+				foreign := 0
+				for _, t := range e.Before.Spec.Taints {
+					if t.Key != ref.TaintKey {
+						foreign++
+					}
+				}
+				add := len(e.Sent.Spec.Taints) > len(e.Before.Spec.Taints)
+				if add {
+					tainted[e.Node]++
+				}
+				if foreign >= 2 || tainted[e.Node] >= 2 {
+					keys = append(keys, fmt.Sprintf("write|add=%v|foreign=%d|retaint=%v|labels=%d", add, minI(foreign, 4), tainted[e.Node] >= 2, len(e.Before.Annotations)))
+				}
+			}
+			if len(gr.TaintNoop) > 0 {
+				keys = append(keys, fmt.Sprintf("write|stale-noop=%d", minI(len(gr.TaintNoop), 3)))
+			}
+		}
+		return keys
+	}})
+}
+
+// ---------------------------------------------------------------- C19 (history half)
+
+func TestC19History(t *testing.T) {
+	p := &world.Profile{Name: "removal", MinGroups: 1, MaxGroups: 2, Auto: 1, MaxInit: 8, SmallGraces: true, Steps: 30, Stale: true,
+		Weights: with(baseWeights(), "taintExt", 8, "advance", 9, "detach", 3, "fault", 3, "clearNode", 3, "asgEdit", 2, "asgDesired", 2, "gcNodes", 1)}
+	col := newCollector(t, "C19", "history half: ordering of cloud terminations and node deletions; non-trivial = a removal batch of >= 2 with a failure or foreign node inside it, two batches in one scan, a not-in-group exit, or an ASG-minimum refusal; distinct by those flags and sizes")
+	historyCheck(t, &historyOpts{prop: "C19", profile: p, col: col, classify: func(w *world.World, rec *world.ScanRecord) []string {
+		var keys []string
+		for _, gr := range rec.Groups {
+			if len(gr.DeleteCalls) == 0 {
+				continue
+			}
+			for i, dc := range gr.DeleteCalls {
+				cls := "ok"
+				switch {
+				case dc.ErrType != "" && len(dc.ErrType) > 0 && dc.Err != "" && containsStr(dc.ErrType, "NodeNotInNodeGroup"):
+					cls = "foreign"
+				case containsStr(dc.Err, "min"):
+					cls = "min-refused"
+				case dc.Err != "":
+					cls = "failed"
+				}
+				if len(dc.Names) >= 2 && cls != "ok" || len(gr.DeleteCalls) >= 2 || cls == "foreign" || cls == "min-refused" {
+					keys = append(keys, fmt.Sprintf("del|%s|n=%d|batch=%d/%d|termOK=%d", cls, minI(len(dc.Names), 4), i, len(gr.DeleteCalls), minI(len(gr.TermOK), 4)))
+				}
+			}
+		}
+		return keys
+	}})
+}
+
+func containsStr(s, sub string) bool { return len(sub) > 0 && len(s) >= len(sub) && (stringIndex(s, sub) >= 0) }
+
+func stringIndex(s, sub string) int {
+	for i := 0; i+len(sub) <= len(s); i++ {
+		if s[i:i+len(sub)] == sub {
+			return i
+		}
+	}
+	return -1
+}
+
+// ---------------------------------------------------------------- C20
+
+func TestC20(t *testing.T) {
+	p := &world.Profile{Name: "chaos", MinGroups: 1, MaxGroups: 3, Dry: 1, Fleet: 1, Auto: 1, Default: 1, Starve: 1, MaxAge: 1, MaxInit: 6, SmallGraces: true, Steps: 30, Stale: true,
+		Weights: with(baseWeights(), "oddNode", 5, "oddPod", 5, "fault", 8, "taintExt", 5, "killNode", 1, "detach", 1, "asgEdit", 1, "fleetPlan", 2, "advance", 8, "gcNodes", 1)}
+	col := newCollector(t, "C20", "chaos histories: malformed nodes/pods, absurd taint values, API and cloud failures at drawn call indices; non-trivial = a scan in which an injected failure was hit, or an odd object was part of a processed in-bounds group; distinct by (fault kinds hit, odd kinds present, outcome)")
+	historyCheck(t, &historyOpts{prop: "C20", profile: p, col: col, classify: func(w *world.World, rec *world.ScanRecord) []string {
+		var keys []string
+		if rec.FaultHits > 0 {
+			kinds := map[string]bool{}
+			for _, e := range rec.Entries {
+				if e.Injected {
+					kinds[e.Kind] = true
+				}
+			}
+			var ks []string
+			for k := range kinds {
+				ks = append(ks, k)
+			}
+			sortStrings(ks)
+			keys = append(keys, fmt.Sprintf("fault|%v|err=%v|exit=%v", ks, rec.Err != nil, rec.FatalExit))
+		}
+		for _, a := range w.Log {
+			if a.Op == "oddNode" || a.Op == "oddPod" {
+				for _, gr := range rec.Groups {
+					if gr.Processed && gr.G == a.Group && gr.Gauge["cpu_capacity"] != world.GaugeUnset {
+						keys = append(keys, fmt.Sprintf("odd|%s|%s|locked=%v", a.Op, a.Key, gr.Locked))
+					}
+				}
+			}
+		}
+		return keys
+	}})
+}
+
+func sortStrings(s []string) {
+	for i := 1; i < len(s); i++ {
+		for j := i; j > 0 && s[j] < s[j-1]; j-- {
+			s[j], s[j-1] = s[j-1], s[j]
+		}
+	}
+}
